@@ -41,6 +41,21 @@ Theorem C10_overlap_symmetric : forall a b dist, overlapping_bounding_rect a b d
 Proof. exact overlap_symmetric. Qed.
 Print Assumptions C10_overlap_symmetric.
 
+(* collections: the x / y domain of a list of polygons is the hull of the members' boxes (contains each, both ends attained) *)
+Theorem C10_bounding_domain_x_is_the_hull : forall g r,
+  let res := bounding_domain_x (g :: r) in
+  (forall h, In h (g :: r) -> fst res <= v2x (Base2DIn2D_min h) /\ v2x (Base2DIn2D_max h) <= snd res) /\
+  (exists h, In h (g :: r) /\ fst res = v2x (Base2DIn2D_min h)) /\ (exists h, In h (g :: r) /\ snd res = v2x (Base2DIn2D_max h)).
+Proof. exact bounding_domain_x_is_hull. Qed.
+Print Assumptions C10_bounding_domain_x_is_the_hull.
+
+Theorem C10_bounding_domain_y_is_the_hull : forall g r,
+  let res := bounding_domain_y (g :: r) in
+  (forall h, In h (g :: r) -> fst res <= v2y (Base2DIn2D_min h) /\ v2y (Base2DIn2D_max h) <= snd res) /\
+  (exists h, In h (g :: r) /\ fst res = v2y (Base2DIn2D_min h)) /\ (exists h, In h (g :: r) /\ snd res = v2y (Base2DIn2D_max h)).
+Proof. exact bounding_domain_y_is_hull. Qed.
+Print Assumptions C10_bounding_domain_y_is_the_hull.
+
 Example C10_nonvacuous :
   Base2DIn2D_min (mkPolygon2 [mkV2 3 1; mkV2 0 2; mkV2 5 (-1); mkV2 2 7]) = mkV2 0 (-1) /\
   Base2DIn2D_max (mkPolygon2 [mkV2 3 1; mkV2 0 2; mkV2 5 (-1); mkV2 2 7]) = mkV2 5 7.
